@@ -1,5 +1,5 @@
 /-
-Lemmas/C11.lean — helper lemmas for C11 (unique field names).
+Lemmas/C11.lean — helper lemmas for C11 (unique field names; `limit11` under the regenerated lookup rule).
 -/
 import SqlframeModel.Impl.C11
 import SqlframeModel.Lemmas.C01Steps
@@ -89,5 +89,27 @@ theorem uniqueGo_id : ∀ (fs : List String) (i : Nat) (acc : List String), (acc
     simp only [uniqueGo, renameOne_fresh_id acc i f hf]
     rw [ih (i + 1) (acc ++ [f]) (by simpa using h)]
     simp
+
+/-! ### `limit` consults the open block only
+
+`Gen.limitLookup` is regenerated from the body of `limit`; the two lemmas below are where it enters every proof
+about head / first / show / isEmpty / limit().collect(): they stop building when `limit` starts to look anywhere
+else than at the LIMIT of the statement's outer SELECT. -/
+
+theorem bodyLimit11_eq (n : Nat) : bodyLimitWith limitLookup n = bodyLimit n := by
+  funext d
+  simp [bodyLimitWith, bodyLimit, foundLimitWith, limitLookup]
+
+/-- with the lookup the source has, `limit` is the `limit` step of the C01 model -/
+theorem limit11_eq_apply (d : DF) (n : Nat) : d.limit11 n = d.apply (.limit n) := by
+  simp only [DF.limit11, DF.limitWith, DF.apply, bodyLimit11_eq]
+
+theorem apply11_eq_apply (d : DF) (s : Step) : d.apply11 s = d.apply s := by
+  cases s <;> simp only [DF.apply11, limit11_eq_apply]
+
+theorem run11_eq_run (steps : List Step) : ∀ d : DF, d.run11 steps = d.run steps := by
+  induction steps with
+  | nil => intro d; rfl
+  | cons s ss ih => intro d; simp only [DF.run11, DF.run, List.foldl_cons, apply11_eq_apply]; exact ih _
 
 end Sqlframe
